@@ -841,7 +841,14 @@ func c20Clock(c *fw.Ctx) {
 		c.Check(n == 120, "5 default", "defaultDuration == 120", "", fmt.Sprint(n), fmt.Sprint(n))
 	}
 	if fn := mustFunc(c, "4 clock", "tokens.verifyCaveats"); fn != nil {
-		for _, dc := range fw.DeepCalls(fn, fw.NameIs("gmsl/tokens.verifyExpiry"), nil) {
+		sitesOf := fw.DeepCalls(fn, fw.NameIs("gmsl/tokens.verifyExpiry"), nil)
+		// seen from the entry point, a clock reading handed down as an argument resolves
+		if entry := c.P.Func("tokens.ValidateToken"); entry != nil {
+			if fromEntry := fw.DeepCalls(entry, fw.NameIs("gmsl/tokens.verifyExpiry"), nil); len(fromEntry) > 0 {
+				sitesOf = fromEntry
+			}
+		}
+		for _, dc := range sitesOf {
 			args := dc.Call.Common().Args
 			if len(args) < 2 {
 				continue
